@@ -249,7 +249,10 @@ fn gen_case(r: &mut Rng, id: u64, method: &str, journal: &str, thorough: bool) -
                 let methods: &[&str] = if thorough { &["raw", "kdf:argon2i:13:int", "kdf:argon2i:13:mod", "none", "raw", "kdf:argon2i:13:int"] }
                                        else { &["raw", "kdf:argon2i:13:int", "none", "raw"] };
                 let m = *r.pick(methods);
-                ops.push(json!({"op": pick, "method": m, "pass": fresh_pass(r, m)}));
+                // every other re-key happens while a session handle that was started but never used is alive (it holds a clone of
+                // the handle's key cache); the handle is dropped at the end of the case
+                let pending = pick == "rekey" && r.chance(1, 2);
+                ops.push(json!({"op": pick, "method": m, "pass": fresh_pass(r, m), "pending": pending}));
                 if pick == "rekey" { cur_method = m.to_string(); }
             }
             "checkpoint" => ops.push(json!({"op": "checkpoint"})),
@@ -297,6 +300,11 @@ struct StoreSt {
     key: Option<Vec<u8>>,      // the 32-byte store key as this harness computes it
     was_none: bool,            // the file has at some time held unwrapped profile keys
     prev_values: HashMap<i64, Vec<u8>>,
+}
+
+thread_local! {
+    /// session handles started but never used, kept alive across a re-key (see the `rekey` op); cleared when the case ends
+    static PENDING: std::cell::RefCell<Vec<askar_storage::any::AnyBackendSession>> = std::cell::RefCell::new(vec![]);
 }
 
 struct Run {
@@ -681,6 +689,13 @@ fn provision_retry(uri: &str, method: &str, pass: &Option<String>, profile: Opti
 
 /// run one case against the real code; returns {"out": …, "oracle": […], "feat": {…}}
 pub fn exec(case: &Value, tag: &str) -> Value {
+    let out = exec_inner(case, tag);
+    block_on(async { PENDING.with(|v| v.borrow_mut().clear()); });
+    out
+}
+
+fn exec_inner(case: &Value, tag: &str) -> Value {
+    block_on(async { PENDING.with(|v| v.borrow_mut().clear()); });
     let method = case["method"].as_str().unwrap_or("raw").to_string();
     let pass = case["pass"].as_str().map(|s| s.to_string());
     let journal = case["journal"].as_str().unwrap_or("wal").to_string();
@@ -828,6 +843,9 @@ pub fn exec(case: &Value, tag: &str) -> Value {
                 let m = op["method"].as_str().unwrap_or("raw").to_string();
                 let p = op["pass"].as_str().map(|s| s.to_string());
                 let from = run.stores[0].method.clone();
+                if op["pending"].as_bool().unwrap_or(false) {
+                    if let Ok(s) = run.stores[0].backend.as_ref().unwrap().session(None, false) { PENDING.with(|v| v.borrow_mut().push(s)); bump(&mut run.feat, "rekey:with-pending-session"); }
+                }
                 let r = { let bk = run.stores[0].backend.as_mut().unwrap(); block_on(async { bk.rekey(parse_method(&m), passkey(&p)).await }) };
                 if r.is_ok() {
                     bump(&mut run.feat, &format!("rekey:{}->{}", class_of(&from), class_of(&m)));
